@@ -10,6 +10,7 @@ import (
 	"os"
 	"strconv"
 	"strings"
+	"testing"
 
 	"ssvharness/internal/common"
 
@@ -190,21 +191,87 @@ func sig(c Case) string {
 	return sb.String()
 }
 
-func evalCases(cases []Case, o *common.Options, rep *common.Report) error {
-	var lines []string
-	for _, c := range cases {
-		lines = append(lines, c.lines()...)
+func sizeBucket(size uint64) string {
+	switch {
+	case size <= 2:
+		return "size=1..2"
+	case size >= 63 && size <= 65:
+		return "size=63..65"
+	case size == 128 || size == 256:
+		return "size=128|256"
+	case size == 1000:
+		return "size=1000"
 	}
-	model, err := common.RunDriverOnce(o.Driver, lines)
-	if err != nil {
-		return err
+	return "size=other"
+}
+
+// judge runs one case on implementation + oracle and compares with the model's answer lines.
+func judge(c Case, mo []string) (impl []string, pan any, diverged bool, key, detail string) {
+	impl, pan = runImpl(c)
+	if pan != nil {
+		return impl, pan, true, "panic", fmt.Sprint(pan)
+	}
+	if mo != nil {
+		mo0 := append([]string{"ok"}, mo[1:]...) // the driver answers "ok <blocks>" to new
+		diverged = strings.Join(impl, ",") != strings.Join(mo0, ",")
+	}
+	key, detail = oracle(c, impl)
+	return
+}
+
+// shrinkCase delta-debugs the op sequence while the same failure (oracle key, or divergence) persists.
+func shrinkCase(c Case, o *common.Options, wantKey string, wantDiv bool) Case {
+	idx := make([]int, len(c.Ops))
+	for i := range idx {
+		idx[i] = i
+	}
+	mk := func(keep []int) Case {
+		c2 := Case{Size: c.Size}
+		for _, i := range keep {
+			c2.Ops = append(c2.Ops, c.Ops[i])
+		}
+		return c2
+	}
+	bad := func(keep []int) bool {
+		c2 := mk(keep)
+		var mo []string
+		if o.Driver != "" {
+			var err error
+			if mo, err = common.RunDriverOnce(o.Driver, c2.lines()); err != nil {
+				return false
+			}
+		}
+		_, _, div, key, _ := judge(c2, mo)
+		if wantKey != "" {
+			return key == wantKey
+		}
+		return wantDiv && div
+	}
+	return mk(ddmin(idx, bad))
+}
+
+func evalCases(cases []Case, o *common.Options, rep *common.Report) error {
+	var model []string
+	if o.Driver != "" {
+		var lines []string
+		for _, c := range cases {
+			lines = append(lines, c.lines()...)
+		}
+		var err error
+		model, err = common.RunDriverOnce(o.Driver, lines)
+		if err != nil {
+			return err
+		}
 	}
 	pos := 0
 	for _, c := range cases {
 		n := len(c.Ops) + 1
-		mo := model[pos : pos+n]
+		var mo []string
+		if model != nil {
+			mo = model[pos : pos+n]
+		}
 		pos += n
-		impl, pan := runImpl(c)
+		impl, pan, diverged, key, detail := judge(c, mo)
 		acc, rej := 0, 0
 		for _, v := range impl {
 			if v == "1" {
@@ -214,27 +281,70 @@ func evalCases(cases []Case, o *common.Options, rep *common.Report) error {
 			}
 		}
 		rep.Case(sig(c), acc > 0 && rej > 0)
-		rep.Count(fmt.Sprintf("size=%d", c.Size))
-		rep.Count(fmt.Sprintf("ops<=%d", (len(c.Ops)+9)/10*10))
-		rep.Sample(map[string]any{"case": c, "verdicts": strings.Join(impl, "")})
+		rep.Count("swf:" + sizeBucket(c.Size))
+		rep.Count(fmt.Sprintf("swf:ops<=%d", (len(c.Ops)+9)/10*10))
+		if rep.Distribution["swf:samples"] < 3 {
+			rep.Count("swf:samples")
+			rep.Sample(map[string]any{"engine": "swf", "case": c, "verdicts": strings.Join(impl, "")})
+		}
+		shrinkBudget := rep.Distribution["swf:shrunk"] < 5
 		if pan != nil {
 			rep.Fail(common.OracleFailure{Engine: "swf", Key: "panic", Case: c, Detail: fmt.Sprint(pan)})
+			rep.Diverge(common.Divergence{Engine: "swf", Case: c, Impl: "panic: " + fmt.Sprint(pan), Model: strings.Join(mo, "")})
 			continue
 		}
-		mo0 := append([]string{"ok"}, mo[1:]...) // the driver answers "ok <blocks>" to new
-		if strings.Join(impl, ",") != strings.Join(mo0, ",") {
-			rep.Diverge(common.Divergence{Engine: "swf", Case: c, Impl: strings.Join(impl, ""), Model: strings.Join(mo0, "")})
+		if key != "" {
+			if shrinkBudget {
+				rep.Count("swf:shrunk")
+				c = shrinkCase(c, o, key, false)
+				var mo2 []string
+				if o.Driver != "" {
+					mo2, _ = common.RunDriverOnce(o.Driver, c.lines())
+				}
+				impl, _, diverged, key, detail = judge(c, mo2)
+				mo = mo2
+			}
+			rep.Fail(common.OracleFailure{Engine: "swf", Key: key, Case: c, Detail: detail})
 		}
-		if k, d := oracle(c, impl); k != "" {
-			rep.Fail(common.OracleFailure{Engine: "swf", Key: k, Case: c, Detail: d})
+		if diverged {
+			if key == "" && shrinkBudget {
+				rep.Count("swf:shrunk")
+				c = shrinkCase(c, o, "", true)
+				mo, _ = common.RunDriverOnce(o.Driver, c.lines())
+				impl, _, _, _, _ = judge(c, mo)
+			}
+			mo0 := append([]string{"ok"}, mo[1:]...)
+			rep.Diverge(common.Divergence{Engine: "swf", Case: c, Impl: strings.Join(impl, ""), Model: strings.Join(mo0, "")})
 		}
 		rep.TracesValidated++
 	}
 	return nil
 }
 
-// exhaustive: all sequences of `add` of the given depth over a boundary alphabet.
-func exhaustive(size uint64, al []uint64, depth int) []Case {
+// probeExcludedSizes runs the real filter at a few window sizes the theorems exclude (size+63 >= 2^63) that are
+// safe to allocate, compares with the model (which keeps the wrap explicit) and records the outcome as notes.
+// Whether such sizes may be configured at all is finding F15, decided under C18.
+func probeExcludedSizes(o *common.Options, rep *common.Report) {
+	for _, size := range []uint64{^uint64(0), ^uint64(0) - 62, ^uint64(0) - 63} {
+		c := Case{Size: size, Ops: []Op{{"add", 5}, {"add", 1000}, {"add", 5}, {"add", 1000}, {"add", 70}, {"add", 6}}}
+		impl, pan := runImpl(c)
+		var model string
+		if o.Driver != "" {
+			if mo, err := common.RunDriverOnce(o.Driver, c.lines()); err == nil {
+				model = strings.Join(mo, " ")
+			}
+		}
+		k, d := "", ""
+		if pan == nil {
+			k, d = oracle(c, impl)
+		}
+		rep.Note("excluded size %d (size+63 >= 2^63, outside SizeOk): impl verdicts=%v panic=%v; model=%q; statement oracle: %q %s", size, impl, pan, model, k, d)
+		rep.Count("swf:excluded-size-probe")
+	}
+}
+
+// exhaustive: all sequences of `add` of the given depth over a boundary alphabet, handed to f in chunks.
+func exhaustive(size uint64, al []uint64, depth int, f func([]Case) error) error {
 	var res []Case
 	idx := make([]int, depth)
 	for {
@@ -243,6 +353,12 @@ func exhaustive(size uint64, al []uint64, depth int) []Case {
 			c.Ops = append(c.Ops, Op{Op: "add", C: al[i]})
 		}
 		res = append(res, c)
+		if len(res) == 20000 {
+			if err := f(res); err != nil {
+				return err
+			}
+			res = res[:0]
+		}
 		k := depth - 1
 		for k >= 0 {
 			idx[k]++
@@ -253,23 +369,48 @@ func exhaustive(size uint64, al []uint64, depth int) []Case {
 			k--
 		}
 		if k < 0 {
-			return res
+			if len(res) > 0 {
+				return f(res)
+			}
+			return nil
 		}
 	}
 }
 
 func main() {
 	o := common.ParseFlags()
+	// the udpsess engine needs testing/synctest's fake clock, which needs a *testing.T: run everything inside one
+	// in-process test (testing.Main never returns; realMain exits the process itself).
+	testing.Main(func(pat, str string) (bool, error) { return true, nil },
+		[]testing.InternalTest{{Name: "corr_c04", F: func(t *testing.T) { os.Exit(realMain(o, t)) }}}, nil, nil)
+}
+
+func realMain(o *common.Options, t *testing.T) int {
 	rep := common.NewReport("C04", o)
-	rep.Engines = []string{"swf"}
+	rep.Engines = []string{"swf", "udpsess"}
 	rep.Rule = "engine swf: op sequences (add | check=IsOk+MustAdd | isok | reset) over boundary alphabets (0, block edges, ring wrap, window edge, 2^64-1) " +
-		"for sizes {1,2,63,64,65,128,256,1000}+random; plus all add-sequences of depth 4 (quick) / 5 (thorough) over an 8-letter alphabet per size; " +
-		"a case is non-trivial if it has at least one accepted and one refused id; distinct by (size, op sequence)"
+		"for sizes {1,2,63,64,65,128,256,1000}+random; plus all add-sequences of depth 4 (quick) / 6 (thorough) over an 8-letter alphabet per size; " +
+		"non-trivial = at least one accepted and one refused id; distinct by (size, op sequence). " +
+		"engine udpsess: packet histories (real packers + crafted, replayed, reordered, bit-flipped, truncated, stale, wrong-type, foreign-session, " +
+		"old/new server-session packets; clock gaps around 30 s and 60 s) against the real server/client unpackers under a fake clock; " +
+		"non-trivial = at least one delivery and >= 3 distinct result classes; distinct by (side, size, event list)"
 	var err error
 	if o.Replay != "" {
-		var c Case
-		if err = common.LoadReplay(o.Replay, &c); err == nil {
-			err = evalCases([]Case{c}, o, rep)
+		var probe struct {
+			Side string `json:"side"`
+		}
+		if err = common.LoadReplay(o.Replay, &probe); err == nil {
+			if probe.Side != "" {
+				var c UCase
+				if err = common.LoadReplay(o.Replay, &c); err == nil {
+					err = evalU(t, c, o, rep, false)
+				}
+			} else {
+				var c Case
+				if err = common.LoadReplay(o.Replay, &c); err == nil {
+					err = evalCases([]Case{c}, o, rep)
+				}
+			}
 		}
 	} else {
 		r := common.NewRng(o.Seed)
@@ -289,7 +430,7 @@ func main() {
 		}
 		depth := 4
 		if o.Thorough() {
-			depth = 5
+			depth = 6
 		}
 		for _, size := range sizes {
 			if err != nil {
@@ -300,17 +441,32 @@ func main() {
 				ring <<= 1
 			}
 			al := []uint64{0, 63, 64, size - 1, size, size + 64, ring - 1, ring + size}
-			err = evalCases(exhaustive(size, al, depth), o, rep)
+			err = exhaustive(size, al, depth, func(cs []Case) error { return evalCases(cs, o, rep) })
+		}
+		if err == nil {
+			probeExcludedSizes(o, rep)
+		}
+		// engine udpsess
+		ru := common.NewRng(o.Seed ^ 0xC04C04)
+		nu := o.Budget(1200, 40000)
+		shrunk := 0
+		for i := 0; i < nu && err == nil; i++ {
+			before := len(rep.OracleFailures) + len(rep.Divergences)
+			err = evalU(t, genU(ru.Fork(uint64(i)), 36), o, rep, shrunk < 4)
+			if len(rep.OracleFailures)+len(rep.Divergences) > before {
+				shrunk++
+			}
 		}
 	}
 	if err != nil {
 		fmt.Fprintln(os.Stderr, "corr_c04:", err)
 		rep.Note("engine error: %v", err)
 		rep.Write(o.Out)
-		os.Exit(3)
+		return 3
 	}
 	if err := rep.Write(o.Out); err != nil {
 		fmt.Fprintln(os.Stderr, err)
-		os.Exit(3)
+		return 3
 	}
+	return 0
 }
